@@ -20,18 +20,50 @@ open Tins.Wire.L2 (layerView splitRaw stripView padOf ViewEq IsTail TailInner cx
 /-- no Dot1Q pads on behalf of `append_padding_` (object state that is not on the wire: KF-C04-L2-4) -/
 def NoAppAll (os : List AnyObj) : Prop := ∀ o ∈ os, NoApp o
 
+/-- **the region excluded from the fixed point for stacks that did not come out of a parser** (KF-C04-L2-4): a Dot1Q that
+    pads on behalf of `append_padding_` — object state that is not on the wire and that the parser clears — above a layer whose
+    length field cuts the padding off (PPPoE, IP, IPv6, EAPOL through its factory, RadioTap, RTP, STP …): the re-parsed packet
+    neither carries the padding in its payload nor re-creates it.  `PadKeptAll` is the complement: wherever a Dot1Q pads, the
+    padding reaches the payload (`passes`).  Decidable; never the case for a parsed stack (`padKeptAll_of_noApp`). -/
+def PadKeptAll : List AnyObj → Prop
+  | [] => True
+  | .l2 (.dot1q q) :: r => (q.appendPadding = true → passes r = true) ∧ PadKeptAll r
+  | _ :: r => PadKeptAll r
+
+theorem padKeptAll_cons {x : AnyObj} {r : List AnyObj} (h : PadKeptAll (x :: r)) :
+    (∀ q, x = .l2 (.dot1q q) → q.appendPadding = true → passes r = true) ∧ PadKeptAll r := by
+  cases x with
+  | l2 o =>
+    cases o with
+    | dot1q q => exact ⟨fun q' hq => (by injection hq with hq; injection hq with hq; subst hq; exact h.1), h.2⟩
+    | _ => exact ⟨fun q hq => (by injection hq with hq; cases hq), h⟩
+  | _ => exact ⟨fun q hq => (by cases hq), h⟩
+
+theorem padKeptAll_of_noApp (os : List AnyObj) (h : NoAppAll os) : PadKeptAll os := by
+  induction os with
+  | nil => trivial
+  | cons a r ih =>
+    have hr : NoAppAll r := fun o ho => h o (List.mem_cons_of_mem _ ho)
+    cases a with
+    | l2 x =>
+      cases x with
+      | dot1q q =>
+        exact ⟨fun ht => absurd ((h _ List.mem_cons_self q rfl).symm.trans ht) (by decide), ih hr⟩
+      | _ => exact ih hr
+    | _ => exact ih hr
+
 /-- the re-parsed sub-stack `os'` of `os` (serialized as `out`, re-parsed with `k` zero bytes behind it): it shows its
     ancestors the same classes and EtherTypes, and under ancestors the writers cannot tell from the original ones (`ParentSim`)
     it serializes to `out` followed by the `e` zero bytes that became payload -/
 def ReFix (ps : List LayerInfo) (os : List AnyObj) (out : Bytes) (k : Nat) (os' : List AnyObj) : Prop :=
   (infos os').map L2.key = (infos os).map L2.key ∧
-  ∃ e, (e = 0 ∨ e = k) ∧ sizeOfStack os' = sizeOfStack os + e ∧
+  ∃ e, (e = 0 ∨ e = k) ∧ (passes os = true → e = k) ∧ sizeOfStack os' = sizeOfStack os + e ∧
     ∀ (ps' : List LayerInfo) (region' : Bytes), ParentSim ps ps' → region'.length = sizeOfStack os' →
       serializeInto (semsAux ps' os' (infos os')) region' = .ok (out ++ List.replicate e 0)
 
 /-- a final RawPDU: the padding behind it becomes payload -/
 theorem reFix_raw (ps : List LayerInfo) (p : Bytes) (k : Nat) : ReFix ps [.raw p] p k [.raw (p ++ List.replicate k 0)] := by
-  refine ⟨?_, k, .inr rfl, ?_, ?_⟩
+  refine ⟨?_, k, .inr rfl, fun _ => rfl, ?_, ?_⟩
   · simp only [infos, List.map_cons, List.map_nil, AnyObj.info, L2.key, L2.etherTagOf_raw]
   · rw [sizeOfStack_raw, sizeOfStack_raw]; simp
   · intro ps' region' _ hl
@@ -40,7 +72,8 @@ theorem reFix_raw (ps : List LayerInfo) (p : Bytes) (k : Nat) : ReFix ps [.raw p
 
 /-- **one layer on top of a sub-stack whose second serialization is known** -/
 theorem chain_fix_layer (x : AnyObj) (os : List AnyObj) (ps : List LayerInfo) (region : Bytes)
-    (hok : LayerOK x os) (hna : NoApp x) (hpay : (splitRaw (x :: os)).2 ≠ [])
+    (hok : LayerOK x os) (hpk : ∀ q, x = .l2 (.dot1q q) → q.appendPadding = true → passes os = true)
+    (hpay : (splitRaw (x :: os)).2 ≠ [])
     (hlen : region.length = Wire.sizeOf (semsAux ps (x :: os) (infos (x :: os)))) (io : Bytes)
     (hio : serializeInto (semsAux (liOfA x os :: ps) os (infos os)) (innerOf (semOfA ps x os) region) = .ok io)
     (hiol : io.length = sizeOfStack os)
@@ -52,7 +85,12 @@ theorem chain_fix_layer (x : AnyObj) (os : List AnyObj) (ps : List LayerInfo) (r
     (hv : layerView false x' = layerView false x) (os'' : List AnyObj)
     (hsub : ReFix (liOfA x os :: ps) os io (cut x (x.trl (sizeOfStack os) + k)) os'') :
     ReFix ps (x :: os) out k (x' :: os'') := by
-  obtain ⟨hkeys, e2, he2, hsz2, hser2⟩ := hsub
+  obtain ⟨hkeys, e2, he2, hpass2, hsz2, hser2⟩ := hsub
+  have hna : ∀ q, x = .l2 (.dot1q q) → q.appendPadding = true → e2 = x.trl (sizeOfStack os) + k := by
+    intro q hq hqa
+    have h1 := hpass2 (hpk q hq hqa)
+    rw [h1]
+    exact cut_of_keeps (by subst hq; rfl) _
   have hlen0 := hlen
   rw [semsAux_consA] at hlen0
   simp only [Wire.sizeOf, sizeOf_semsAuxA, semOfA_hdr, semOfA_trl] at hlen0
@@ -70,11 +108,17 @@ theorem chain_fix_layer (x : AnyObj) (os : List AnyObj) (ps : List LayerInfo) (r
       · exact .inl (by omega)
       · exact .inr ⟨by omega, by rw [h, hc, hc]⟩
   have hstep := fun (ps' : List LayerInfo) (hps : ParentSim ps ps') =>
-    fix_all ps ps' x os os'' hok hna hpay (splice region x.hdr io) io (by rw [hsl]; omega) hin hiol hnil hraw hpos hnostp
-      out hw n k hn hk
-      x' inner hp hps hkeys e2 he2' hsz2
+    fix_all ps ps' x os os'' k e2 hok hna hpay (splice region x.hdr io) io (by rw [hsl]; omega) hin hiol hnil hraw hpos hnostp
+      out hw n hn hk x' inner hp hps hkeys he2' hsz2
   have hsize := (hstep ps (ParentSim.refl ps)).1
-  refine ⟨keys_cons hv os os'' hkeys, (if e2 = 0 then 0 else k), by split <;> simp, ?_, ?_⟩
+  refine ⟨keys_cons hv os os'' hkeys, (if e2 = 0 then 0 else k), by split <;> simp, ?_, ?_, ?_⟩
+  · intro hpass
+    rw [passes_cons (not_raw_of_layerOK x os hok), Bool.and_eq_true] at hpass
+    have h1 := hpass2 hpass.2
+    rw [cut_of_keeps hpass.1] at h1
+    split
+    · omega
+    · rfl
   · rw [sizeOfStack_cons, sizeOfStack_cons]; omega
   · intro ps' region' hps hlen'
     rw [sizeOfStack_cons] at hlen'
@@ -91,7 +135,7 @@ theorem chain_fix_layer (x : AnyObj) (os : List AnyObj) (ps : List LayerInfo) (r
 
 /-- **the induction over the stack**: `chain_reparse_aux_all` with the second serialization -/
 theorem chain_fix_aux_all (os : List AnyObj) : ∀ (x : AnyObj) (ps : List LayerInfo) (region : Bytes),
-    isRaw x = false → StackableAll (x :: os) → NoAppAll (x :: os) → (splitRaw (x :: os)).2 ≠ [] →
+    isRaw x = false → StackableAll (x :: os) → PadKeptAll (x :: os) → (splitRaw (x :: os)).2 ≠ [] →
     region.length = Wire.sizeOf (semsAux ps (x :: os) (infos (x :: os))) →
     ∃ out, serializeInto (semsAux ps (x :: os) (infos (x :: os))) region = .ok out ∧ out.length = region.length ∧
       FirstNib x out ∧
@@ -105,7 +149,7 @@ theorem chain_fix_aux_all (os : List AnyObj) : ∀ (x : AnyObj) (ps : List Layer
     intro x ps region hx hst hcv hpay hlen
     rw [stackableAll_cons hx] at hst
     obtain ⟨hok, hst'⟩ := hst
-    have hcx := hcv x List.mem_cons_self
+    obtain ⟨hcx, hcv'⟩ := padKeptAll_cons hcv
     have hlen0 := hlen
     rw [semsAux_consA] at hlen0
     simp only [Wire.sizeOf, sizeOf_semsAuxA, semOfA_hdr, semOfA_trl] at hlen0
@@ -151,8 +195,8 @@ theorem chain_fix_aux_all (os : List AnyObj) : ∀ (x : AnyObj) (ps : List Layer
       have hoka := hst''.1
       have hnx : nextA (a :: r) = .obj a r := nextA_cons_of_not_raw a r ha
       have hpay' : (splitRaw (a :: r)).2 ≠ [] := by rw [L2.splitRaw_cons_cons] at hpay; exact hpay
-      rcases ih a (liOfA x (a :: r) :: ps) (innerOf (semOfA ps x (a :: r)) region) ha hst'
-        (fun o ho => hcv o (List.mem_cons_of_mem _ ho)) hpay' (by rw [hil, sizeOf_semsAuxA]) with ⟨io, hio, hiol, hfn, hpar⟩
+      rcases ih a (liOfA x (a :: r) :: ps) (innerOf (semOfA ps x (a :: r)) region) ha hst' hcv' hpay'
+        (by rw [hil, sizeOf_semsAuxA]) with ⟨io, hio, hiol, hfn, hpar⟩
       have hapos := hdrA_pos a r hoka
       have hnostp : ∀ s r', a :: r ≠ .app (.stp s) :: r' := by
         intro s r' h
@@ -192,11 +236,11 @@ theorem chain_fix_aux_all (os : List AnyObj) : ∀ (x : AnyObj) (ps : List Layer
         (fun q h => by cases h; cases ha) (fun _ _ _ => hiopos) hnostp out hser n k hn hk x' _ hp hv os'' hsub
 
 /-- **second-serialization fixed point, whole packets of all seven families, under any entry name**: for every
-    representable stack (`StackableAll`) without a Dot1Q that pads on behalf of `append_padding_` (`NoAppAll`) whose innermost
-    payload is non-empty, parsing the serialization `out` under an entry name of the outermost class and serializing the
-    result gives `out` again. -/
+    representable stack (`StackableAll`) outside the region `PadKeptAll` excludes (a Dot1Q that pads on behalf of
+    `append_padding_` above a length-delimited payload) whose innermost payload is non-empty, parsing the serialization `out`
+    under an entry name of the outermost class and serializing the result gives `out` again. -/
 theorem chain_fixpoint_named (n : String) (o : AnyObj) (os : List AnyObj) (hn : EntryName n o)
-    (hs : StackableAll (o :: os)) (hc : NoAppAll (o :: os)) (hpay : (splitRaw (o :: os)).2 ≠ [])
+    (hs : StackableAll (o :: os)) (hc : PadKeptAll (o :: os)) (hpay : (splitRaw (o :: os)).2 ≠ [])
     (out : Bytes) (hser : serializeObjs (o :: os) = .ok out) :
     ∃ os', parseChain (out.length + 2) n out = .ok os' ∧ serializeObjs os' = .ok out := by
   cases ho : isRaw o with
@@ -226,7 +270,7 @@ theorem chain_fixpoint_named (n : String) (o : AnyObj) (os : List AnyObj) (hn : 
       have := hser'.symm.trans hser
       injection this
     subst this
-    rcases hpar n 0 hn (.inl rfl) (out'.length + 2) (by omega) with ⟨os', hp, _, e, he, hsz, hre⟩
+    rcases hpar n 0 hn (.inl rfl) (out'.length + 2) (by omega) with ⟨os', hp, _, e, he, _, hsz, hre⟩
     rw [List.replicate_zero, List.append_nil] at hp
     have he0 : e = 0 := by rcases he with h | h <;> exact h
     subst he0
@@ -235,6 +279,45 @@ theorem chain_fixpoint_named (n : String) (o : AnyObj) (os : List AnyObj) (hn : 
       (by rw [List.length_replicate]; exact sizeOf_semsAuxA os' [])
     rw [List.replicate_zero, List.append_nil] at this
     exact this
+
+/-! ### the full statement, its refutation, the proved part -/
+
+/-- **C03, whole packets of all families, second clause — full statement over every representable stack** (parsed or built
+    through the API) -/
+def chain_reserialize_fixpoint_all : Prop :=
+  ∀ (n : String) (o : AnyObj) (os : List AnyObj) (out : Bytes) (os' : List AnyObj), EntryName n o → StackableAll (o :: os) →
+    (splitRaw (o :: os)).2 ≠ [] → serializeObjs (o :: os) = .ok out →
+    parseChain (out.length + 2) n out = .ok os' → serializeObjs os' = .ok out
+
+theorem padLostWitness_stackableAll : StackableAll L2.padLostWitness :=
+  ⟨⟨L2.dot1q_create_wf 5 true, trivial, trivial, trivial⟩,
+   ⟨⟨by decide, by decide, by decide, by decide, by decide, rfl, fun t ht => nomatch ht⟩, trivial, trivial,
+    ⟨rfl, rfl, by decide⟩⟩, rfl⟩
+
+/-- **… refuted** on `Dot1Q(5, append_pad = true) / PPPoE session / RawPDU(01 02 03)` (the witness of the link-layer theorem,
+    replayed on the real classes: known finding KF-C04-L2-4): 50 bytes the first time, 13 the second -/
+theorem chain_reserialize_fixpoint_all_fails : ¬ chain_reserialize_fixpoint_all := by
+  intro h
+  have h1 := h "Dot1Q" (.l2 (.dot1q (L2.Dot1Q.create 5 true))) [.l2 (.pppoe ⟨1, 1, 0, 0x1234, 0, [], 0⟩), .raw [1, 2, 3]]
+    L2.padLostBytes L2.padLostRe (.inl rfl) padLostWitness_stackableAll (by decide) rfl rfl
+  have h2 : serializeObjs L2.padLostRe = .ok [0x00,0x05,0x88,0x64, 0x11,0,0x12,0x34,0,3, 1,2,3] := rfl
+  rw [h2] at h1
+  injection h1 with h1
+  exact absurd (congrArg List.length h1) (by decide)
+
+/-- … and the witness lies in the excluded region -/
+example : ¬ PadKeptAll L2.padLostWitness := fun h => absurd (h.1 rfl) (by decide)
+
+/-- **… proved part**: everything outside the excluded region (`PadKeptAll`) -/
+theorem chain_reserialize_fixpoint_all_partial (n : String) (o : AnyObj) (os : List AnyObj) (out : Bytes) (os' : List AnyObj)
+    (hn : EntryName n o) (hs : StackableAll (o :: os)) (hk : PadKeptAll (o :: os)) (hpay : (splitRaw (o :: os)).2 ≠ [])
+    (hser : serializeObjs (o :: os) = .ok out) (hpar : parseChain (out.length + 2) n out = .ok os') :
+    serializeObjs os' = .ok out := by
+  rcases chain_fixpoint_named n o os hn hs hk hpay out hser with ⟨os2, hp2, hs2⟩
+  have e : os2 = os' := by
+    have := hp2.symm.trans hpar
+    injection this
+  rw [← e]; exact hs2
 
 /-! ### parsed packets -/
 
@@ -321,7 +404,7 @@ theorem c03_fixpoint_all (cls : String) (b : Bytes) (os : List AnyObj) (hb : b.l
   rcases parse_stackable_all _ cls b os hb hparse hres with ⟨hst, h, t, rfl, hhd⟩
   rcases stackableAll_serializes _ hst with ⟨out, hser, _⟩
   have hna := parse_noApp_all _ cls b _ hparse
-  rcases chain_fixpoint_named cls h t hhd.1 hst hna hpay out hser with ⟨os', hp, hs2⟩
+  rcases chain_fixpoint_named cls h t hhd.1 hst (padKeptAll_of_noApp _ hna) hpay out hser with ⟨os', hp, hs2⟩
   exact ⟨out, hser, os', hp, hs2⟩
 
 /-- … with the view clause of `c03_all` in one statement: the re-parse `os'` of `y = serialize(os)` has the same classes and
